@@ -51,19 +51,42 @@ type alphabet struct {
 }
 
 type repro struct {
-	Signature string             `json:"signature"`
-	Kind      string             `json:"kind"` // behaviour | bytes | decoder | concurrent
-	N         int                `json:"n"`
-	Fork      int                `json:"fork"`
-	Prefix    []step             `json:"prefix,omitempty"`
-	Probe     *step              `json:"probe,omitempty"`
-	Topic     string             `json:"topic,omitempty"`
-	DataHex   string             `json:"data_hex,omitempty"`
-	Time      *valkit.TimePoint  `json:"time,omitempty"`
-	Decoder   string             `json:"decoder,omitempty"`
-	Batch     []step             `json:"batch,omitempty"`
-	Detail    string             `json:"detail,omitempty"`
+	Signature string            `json:"signature"`
+	Kind      string            `json:"kind"` // behaviour | bytes | decoder | concurrent
+	N         int               `json:"n"`
+	Fork      int               `json:"fork"`
+	Prefix    []step            `json:"prefix,omitempty"`
+	Probe     *step             `json:"probe,omitempty"`
+	Topic     string            `json:"topic,omitempty"`
+	DataHex   string            `json:"data_hex,omitempty"`
+	Time      *valkit.TimePoint `json:"time,omitempty"`
+	Decoder   string            `json:"decoder,omitempty"`
+	Batch     []step            `json:"batch,omitempty"`
+	Calls     []rawCall         `json:"calls,omitempty"` // kind "calls": every call made on ONE validator object, in order; the last one hangs
+	Detail    string            `json:"detail,omitempty"`
 }
+
+// rawCall is one call of ValidatePubsubMessage as it was made: concrete topic, bytes and virtual time.
+type rawCall struct {
+	Topic   string           `json:"topic"`
+	DataHex string           `json:"data_hex"`
+	T       valkit.TimePoint `json:"t"`
+	Class   string           `json:"class,omitempty"` // what the call returned when it was made (the last one: hang)
+	Rule    string           `json:"rule,omitempty"`
+	Msg     *valkit.Msg      `json:"m,omitempty"` // the model class the bytes were built from, if any
+}
+
+// histCall is rawCall in memory (the bytes are shared with the concretised message)
+type histCall struct {
+	topic string
+	data  []byte
+	t     valkit.TimePoint
+	class string
+	rule  string
+	msg   *valkit.Msg
+}
+
+type peerHist struct{ calls []histCall }
 
 type step struct {
 	M valkit.Msg       `json:"m"`
@@ -80,6 +103,9 @@ type world struct {
 	conc   map[string]*valkit.Concrete
 	cmu    sync.Mutex
 	seen   map[string]bool
+	hist   sync.Map    // *valkit.Peer -> *peerHist: every call made on that validator object (a peer is used by one goroutine)
+	wedged sync.Map    // *valkit.Peer -> true: validator objects on which a confirmed hang was reported
+	abort  atomic.Bool // a validator stopped returning: the bulk modes end (the violation is recorded, what was recorded is written)
 }
 
 func (w *world) realFork() phase0.Epoch {
@@ -147,10 +173,7 @@ func (w *world) violate(sig, desc, beh string, stepNo int, r repro) {
 // validate one class on a peer and run the monitors; returns the outcome and the monitor's verdict on an accept
 func (w *world) validate(p *valkit.Peer, mon *valkit.Monitor, m valkit.Msg, t valkit.TimePoint, heavy bool, beh string, stepNo int, prefix []step) (valkit.Outcome, string) {
 	c := w.concretise(m)
-	o := p.ValidatePubsub(c.Topic, c.Data, t.Slot(), t.Offset(), heavy)
-	if o.Class == "hang" && !w.confirmSlow(func() bool { return p.ValidatePubsub(c.Topic, c.Data, t.Slot(), t.Offset(), heavy).Class == "hang" }) {
-		o.Class, o.TimeOK = "slow", false // a scheduling stall of the loaded machine, not a property of the input: no verdict, nothing compared
-	}
+	o := w.guardedCall(p, c.Topic, c.Data, t, heavy, &m)
 	g := ""
 	pr := step{m, t}
 	switch o.Class {
@@ -158,8 +181,7 @@ func (w *world) validate(p *valkit.Peer, mon *valkit.Monitor, m valkit.Msg, t va
 		w.violate("validator-panic", fmt.Sprintf("ValidatePubsubMessage panicked on %s at %+v: %s", key(m), t, firstLine(o.Panic)), beh, stepNo,
 			repro{Kind: "behaviour", Prefix: prefix, Probe: &pr, Detail: o.Panic})
 	case "hang":
-		w.violate("validator-hang", fmt.Sprintf("ValidatePubsubMessage did not return within %v on %s", valkit.HangAfter, key(m)), beh, stepNo,
-			repro{Kind: "behaviour", Prefix: prefix, Probe: &pr})
+		w.reportHang(p, beh, stepNo)
 	case "accept":
 		g = mon.Accepted(c.Topic, c.Data, uint64(t.Slot()), uint64(t.Offset()/time.Millisecond), o.TimeOK)
 		if g != "none" {
@@ -172,6 +194,164 @@ func (w *world) validate(p *valkit.Peer, mon *valkit.Monitor, m valkit.Msg, t va
 			repro{Kind: "behaviour", Prefix: prefix, Probe: &pr})
 	}
 	return o, g
+}
+
+const (
+	noReturnFirst  = 10 * time.Second // how long the first call is waited for before it counts as "did not return"
+	noReturnRepeat = 5 * time.Second  // ... and each of the three confirming repeats on the same validator object
+)
+
+// call runs one ValidatePubsubMessage in its own goroutine and waits at most `wait` for it.  Class "hang" means either
+// that the call returned after more than valkit.HangAfter (valkit) or that it has not returned at all (Err "no-return";
+// its goroutine stays behind).
+func (w *world) call(p *valkit.Peer, topic string, data []byte, t valkit.TimePoint, heavy bool, wait time.Duration) valkit.Outcome {
+	o, _ := w.callPending(p, topic, data, t, heavy, wait)
+	return o
+}
+
+// callPending is call that also hands out the channel of a call that has not returned yet.
+func (w *world) callPending(p *valkit.Peer, topic string, data []byte, t valkit.TimePoint, heavy bool, wait time.Duration) (valkit.Outcome, chan valkit.Outcome) {
+	done := make(chan valkit.Outcome, 1)
+	go func() { done <- p.ValidatePubsub(topic, data, t.Slot(), t.Offset(), heavy) }()
+	tm := time.NewTimer(wait)
+	defer tm.Stop()
+	select {
+	case o := <-done:
+		return o, nil
+	case <-tm.C:
+		return valkit.Outcome{Class: "hang", Err: "no-return", Dur: wait}, done
+	}
+}
+
+func (w *world) histOf(p *valkit.Peer) *peerHist {
+	if h, ok := w.hist.Load(p); ok {
+		return h.(*peerHist)
+	}
+	h, _ := w.hist.LoadOrStore(p, &peerHist{})
+	return h.(*peerHist)
+}
+
+// forget drops the call history of a validator object that is not used any more.
+func (w *world) forget(p *valkit.Peer) {
+	if p != nil {
+		w.hist.Delete(p)
+	}
+}
+
+// guardedCall is one validation with the hang monitor of C08.  A call that is slower than valkit.HangAfter, or that has not
+// returned after noReturnFirst, is a HANG only if the same call ON THE SAME VALIDATOR OBJECT is slow / does not return again
+// three times in a row (confirmSlow): a validator that loops on an input, or that was left wedged by an EARLIER call (a
+// leaked lock), fails every repeat, whereas a stall of an overloaded machine passes.  Unconfirmed: class "slow" (no verdict,
+// nothing compared, the caller rebuilds the validator).  Every call is appended to the history of the validator object.
+func (w *world) guardedCall(p *valkit.Peer, topic string, data []byte, t valkit.TimePoint, heavy bool, m *valkit.Msg) valkit.Outcome {
+	if _, dead := w.wedged.Load(p); dead { // a confirmed hang was reported on this validator object: nothing more is asked of it
+		return valkit.Outcome{Class: "hang", Err: "wedged"}
+	}
+	o, pend := w.callPending(p, topic, data, t, heavy, noReturnFirst)
+	if o.Class == "hang" {
+		pending := []chan valkit.Outcome{pend}
+		if !w.confirmSlow(func() bool {
+			r, pd := w.callPending(p, topic, data, t, heavy, noReturnRepeat)
+			pending = append(pending, pd)
+			return r.Class == "hang"
+		}) {
+			o.Class, o.TimeOK = "slow", false
+			// calls that were given up on but are still running share the clock and the reason recorder of this validator
+			// object with whatever is validated next on it: they must be over before anything else happens
+			limit := time.After(60 * time.Second)
+		drain:
+			for _, pd := range pending {
+				if pd == nil {
+					continue
+				}
+				select {
+				case <-pd:
+				case <-limit:
+					w.mu.Lock()
+					w.res.Notes = append(w.res.Notes, "a stalled call was still running 60 s after a repeat of it had returned: the run is ended without a verdict on it")
+					w.mu.Unlock()
+					w.abort.Store(true)
+					break drain
+				}
+			}
+		}
+	}
+	h := w.histOf(p)
+	h.calls = append(h.calls, histCall{topic: topic, data: data, t: t, class: o.Class, rule: o.Rule, msg: m})
+	return o
+}
+
+func rawOf(c []histCall) []rawCall {
+	out := make([]rawCall, len(c))
+	for i, x := range c {
+		out[i] = rawCall{Topic: x.topic, DataHex: hex.EncodeToString(x.data), T: x.t, Class: x.class, Rule: x.rule, Msg: x.msg}
+	}
+	return out
+}
+
+// hangsOnFresh replays a call history on a FRESH validator object: does its last call hang there too (twice)?
+func (w *world) hangsOnFresh(c []histCall) bool {
+	p := w.env.NewPeer(w.realFork())
+	for i, x := range c {
+		o := w.call(p, x.topic, x.data, x.t, false, noReturnRepeat)
+		if o.Class == "hang" {
+			return i == len(c)-1 && w.call(p, x.topic, x.data, x.t, false, noReturnRepeat).Class == "hang"
+		}
+	}
+	return false
+}
+
+// reportHang: the last call in the history of validator object p is a confirmed hang.  The violation is "validation hangs
+// after this history of previously validated messages": the replay file is the shortest of (the call before + the hanging
+// call), (the accepted calls + those two), (every call made on the object) that hangs again on a fresh validator object.
+func (w *world) reportHang(p *valkit.Peer, beh string, stepNo int) {
+	lastCallStart.Store(0)
+	w.abort.Store(true)
+	if _, again := w.wedged.LoadOrStore(p, true); again {
+		return // already reported
+	}
+	h := w.histOf(p).calls
+	n := len(h)
+	var cands [][]histCall
+	if n >= 2 {
+		cands = append(cands, h[n-2:])
+		var acc []histCall
+		for _, x := range h[:n-2] {
+			if x.class == "accept" {
+				acc = append(acc, x)
+			}
+		}
+		if len(acc) > 0 && len(acc) < n-2 {
+			cands = append(cands, append(acc, h[n-2:]...))
+		}
+	}
+	cands = append(cands, h)
+	chosen, again := h, false
+	for _, c := range cands {
+		if w.hangsOnFresh(c) {
+			chosen, again = c, true
+			break
+		}
+	}
+	label := func(x histCall) string {
+		if x.msg != nil {
+			return key(*x.msg)
+		}
+		return fmt.Sprintf("%d perturbed bytes", len(x.data))
+	}
+	last := h[n-1]
+	desc := fmt.Sprintf("ValidatePubsubMessage of %s at %+v did not return (or took more than %v) and the same call on the same validator object "+
+		"failed to return three more times", label(last), last.t, valkit.HangAfter)
+	if n >= 2 {
+		prev := h[n-2]
+		desc += fmt.Sprintf("; the validation just before on this object was %s -> %s:%s; %d calls had been made on the object", label(prev), prev.class, prev.rule, n-1)
+	}
+	if again {
+		desc += fmt.Sprintf("; a fresh validator hangs again after the %d saved calls", len(chosen)-1)
+	} else {
+		desc += "; NOT reproduced on a fresh validator object with the saved calls"
+	}
+	w.violate("validator-hang", desc, beh, stepNo, repro{Kind: "calls", Calls: rawOf(chosen), Detail: desc})
 }
 
 // confirmSlow: a call that took longer than valkit.HangAfter is reported as a hang only if the SAME call on the same
@@ -246,10 +426,11 @@ func (w *world) replay(b vh.Behaviour) {
 				nontrivial = true
 			}
 		}
-		if o.Class != wantV && (o.Class == "accept" || wantV == "accept") {
-			break // the real state and the spec state have parted: the rest of the behaviour is not comparable
+		if o.Class == "hang" || (o.Class != wantV && (o.Class == "accept" || wantV == "accept")) {
+			break // the real state and the spec state have parted (or the validator is wedged): the rest is not comparable
 		}
 	}
+	w.forget(p)
 	w.res.Behaviours++
 	w.res.Steps += len(b.Steps)
 	if nontrivial {
@@ -290,7 +471,7 @@ func (w *world) sweep(al alphabet, depth, maxPaths int, seed int64, tracePath st
 	level := []pfx{{}}
 	var out [][]event
 	totalPaths := 0
-	for d := 1; d <= depth && len(level) > 0; d++ {
+	for d := 1; d <= depth && len(level) > 0 && !w.abort.Load(); d++ {
 		if maxPaths > 0 && totalPaths+len(level) > maxPaths {
 			rng.Shuffle(len(level), func(i, j int) { level[i], level[j] = level[j], level[i] })
 			keep := maxPaths - totalPaths
@@ -311,7 +492,9 @@ func (w *world) sweep(al alphabet, depth, maxPaths int, seed int64, tracePath st
 			go func(li int) {
 				defer wg.Done()
 				defer func() { <-sem }()
-				results[li], nexts[li] = w.sweepPrefix(al, level[li], order, leq, d < depth)
+				if !w.abort.Load() {
+					results[li], nexts[li] = w.sweepPrefix(al, level[li], order, leq, d < depth)
+				}
 			}(li)
 		}
 		wg.Wait()
@@ -355,6 +538,7 @@ func (w *world) sweepPrefix(al alphabet, p pfx, order []int, leq func(a, b int) 
 	var rebuild func(record bool) bool
 	stalls := 0
 	rebuild = func(record bool) bool {
+		w.forget(peer)
 		peer = w.env.NewPeer(w.realFork())
 		mon = w.newMonitor()
 		mark := len(evs)
@@ -390,6 +574,7 @@ func (w *world) sweepPrefix(al alphabet, p pfx, order []int, leq func(a, b int) 
 		}
 		return true
 	}
+	defer func() { w.forget(peer) }()
 	if !rebuild(true) {
 		return evs, nil
 	}
@@ -403,10 +588,14 @@ func (w *world) sweepPrefix(al alphabet, p pfx, order []int, leq func(a, b int) 
 			continue
 		}
 		for mi := range al.Alpha {
-			lastCallStart.Store(time.Now().UnixNano())
+			if w.abort.Load() { // a validator stopped returning (here or in another worker): what was recorded so far is kept
+				return evs, next
+			}
 			o, g := w.validate(peer, mon, al.Alpha[mi], al.Times[ti], false, beh, len(prefix), prefix)
-			lastCallStart.Store(0)
 			steps++
+			if o.Class == "hang" { // confirmed and reported by validate; this validator object is wedged
+				return evs, next
+			}
 			if !o.TimeOK {
 				w.mu.Lock()
 				w.res.Counters["timing_unsafe_steps"]++
@@ -423,11 +612,12 @@ func (w *world) sweepPrefix(al alphabet, p pfx, order []int, leq func(a, b int) 
 			if o.Class == "ignore" || o.Class == "reject" {
 				// the same bytes again on the SAME validator instance: a refused message leaves no trace in the modelled
 				// state, so the verdict must repeat (state that is not modelled - caches - shows here); panics are monitored
-				lastCallStart.Store(time.Now().UnixNano())
 				o2, _ := w.validate(peer, mon, al.Alpha[mi], al.Times[ti], false, beh+"-repeat", len(prefix),
 					append(append([]step{}, prefix...), step{al.Alpha[mi], al.Times[ti]}))
-				lastCallStart.Store(0)
 				steps++
+				if o2.Class == "hang" {
+					return evs, next
+				}
 				if o2.TimeOK && (o2.Class != o.Class || o2.Rule != o.Rule) && o2.Class != "panic" && o2.Class != "hang" {
 					w.mu.Lock()
 					w.res.Diverge(beh, len(prefix), "repeat", o.Class+":"+o.Rule, o2.Class+":"+o2.Rule)
@@ -579,7 +769,7 @@ func (w *world) bytesMode(al alphabet, seed int64, flips, maxMsgs int) {
 	}
 	var warmPrefix []step
 	for _, mi := range idx {
-		if len(warmPrefix) >= 6 {
+		if len(warmPrefix) >= 6 || w.abort.Load() {
 			break
 		}
 		if o, _ := w.validate(warm, monW, al.Alpha[mi], t0, false, "bytes-warm", 0, warmPrefix); o.Class == "accept" {
@@ -588,20 +778,18 @@ func (w *world) bytesMode(al alphabet, seed int64, flips, maxMsgs int) {
 	}
 	var ms0, ms1 runtime.MemStats
 	feed := func(p *valkit.Peer, mon *valkit.Monitor, prefix []step, topic string, data []byte, t valkit.TimePoint, heavy bool) {
-		lastCallStart.Store(time.Now().UnixNano())
-		o := p.ValidatePubsub(topic, data, t.Slot(), t.Offset(), heavy)
-		if o.Class == "hang" && !w.confirmSlow(func() bool { return p.ValidatePubsub(topic, data, t.Slot(), t.Offset(), heavy).Class == "hang" }) {
-			o.Class, o.TimeOK = "slow", false
+		if w.abort.Load() {
+			return
 		}
-		lastCallStart.Store(0)
+		o := w.guardedCall(p, topic, data, t, heavy, nil)
 		w.res.Steps++
 		r := repro{Kind: "bytes", Prefix: prefix, Topic: topic, DataHex: hex.EncodeToString(data), Time: &t}
 		switch o.Class {
 		case "panic":
 			r.Detail = o.Panic
 			w.violate("validator-panic", "ValidatePubsubMessage panicked on perturbed bytes: "+firstLine(o.Panic), "bytes", 0, r)
-		case "hang":
-			w.violate("validator-hang", "ValidatePubsubMessage did not return on perturbed bytes", "bytes", 0, r)
+		case "hang": // confirmed on this validator object: the history of the object is the replay file
+			w.reportHang(p, "bytes", 0)
 		case "accept":
 			w.res.Counters["perturbed_accepted"]++
 			if g := mon.Accepted(topic, data, uint64(t.Slot()), uint64(t.Offset()/time.Millisecond), o.TimeOK); g != "none" {
@@ -613,6 +801,9 @@ func (w *world) bytesMode(al alphabet, seed int64, flips, maxMsgs int) {
 		}
 	}
 	for n, mi := range idx {
+		if w.abort.Load() { // a validator object is wedged (reported): the rest of the messages is skipped
+			break
+		}
 		c := w.concretise(al.Alpha[mi])
 		t := al.Times[rng.Intn(len(al.Times))]
 		vars := perturb(c, rng, flips, w.env.AllOperatorIDs())
@@ -631,8 +822,8 @@ func (w *world) bytesMode(al alphabet, seed int64, flips, maxMsgs int) {
 		}
 		if n%8 == 0 { // the same bytes through ValidateSSVMessage (objects decoded from perturbed bytes)
 			for _, data := range vars {
-				if ssv, err := commons.DecodeNetworkMsg(data); err == nil && ssv != nil {
-					lastCallStart.Store(time.Now().UnixNano())
+				if ssv, err := commons.DecodeNetworkMsg(data); err == nil && ssv != nil && !w.abort.Load() {
+					lastCallStart.Store(time.Now().UnixNano()) // ValidateSSVMessage is called directly: the bulk watchdog (60 s) covers it
 					o := fresh.ValidateSSV(ssv, t.Slot(), t.Offset(), false)
 					lastCallStart.Store(0)
 					if o.Class == "panic" {
@@ -719,9 +910,9 @@ func subnetSeeds(rng *rand.Rand) []string {
 // concurrent validation of message sets on one validator
 
 type batchEvent struct {
-	E    string       `json:"e"` // "C"
-	Pre  []batchCall  `json:"pre"`
-	Msgs []batchCall  `json:"msgs"`
+	E    string      `json:"e"` // "C"
+	Pre  []batchCall `json:"pre"`
+	Msgs []batchCall `json:"msgs"`
 }
 type batchCall struct {
 	I int    `json:"i"`
@@ -766,7 +957,9 @@ func (w *world) concurrent(al alphabet, rounds int, seed int64, tracePath string
 			if err != nil {
 				continue
 			}
+			lastCallStart.Store(time.Now().UnixNano())
 			o := p.ValidateSSV(ssv, t0.Slot(), t0.Offset(), false)
+			lastCallStart.Store(0)
 			ev.Pre = append(ev.Pre, batchCall{mi + 1, t0i + 1, o.Class, o.Rule})
 		}
 		// the batch: 8 calls over 2..4 distinct classes (so that the same class is validated by several goroutines)
@@ -793,7 +986,20 @@ func (w *world) concurrent(al alphabet, rounds int, seed int64, tracePath string
 			}(g)
 		}
 		close(start)
-		wg.Wait()
+		waited := make(chan struct{})
+		go func() { wg.Wait(); close(waited) }()
+		select {
+		case <-waited:
+		case <-time.After(60 * time.Second):
+			var batch []step
+			for g := range calls {
+				batch = append(batch, step{al.Alpha[calls[g]], t0})
+			}
+			w.violate("validator-hang", "a concurrent batch of 8 calls of ValidateSSVMessage did not return within 60 s", beh, 0, repro{Kind: "concurrent", Batch: batch})
+			bw.Flush()
+			f.Close()
+			return
+		}
 		type k5 struct{ signer, h, r, mt, role int }
 		acc := map[k5]int{}
 		slow := false
@@ -866,7 +1072,7 @@ func (w *world) reproduce(path string) {
 			prefix = append(prefix, s)
 		}
 		data, _ := hex.DecodeString(r.DataHex)
-		o := p.ValidatePubsub(r.Topic, data, r.Time.Slot(), r.Time.Offset(), true)
+		o := w.guardedCall(p, r.Topic, data, *r.Time, true, nil)
 		w.res.Notes = append(w.res.Notes, fmt.Sprintf("bytes: %s:%s", o.Class, o.Rule))
 		rr := repro{Kind: "bytes", Prefix: prefix, Topic: r.Topic, DataHex: r.DataHex, Time: r.Time}
 		switch o.Class {
@@ -885,6 +1091,21 @@ func (w *world) reproduce(path string) {
 		if ssv, err := commons.DecodeNetworkMsg(data); err == nil && ssv != nil {
 			if o := p.ValidateSSV(ssv, r.Time.Slot(), r.Time.Offset(), true); o.Class == "panic" {
 				w.violate("validator-panic", "ValidateSSVMessage panicked on saved bytes: "+firstLine(o.Panic), "repro", 0, rr)
+			}
+		}
+	case "calls": // every call made on one validator object; the last one hung
+		p := w.env.NewPeer(w.realFork())
+		for i, c := range r.Calls {
+			data, _ := hex.DecodeString(c.DataHex)
+			o := w.guardedCall(p, c.Topic, data, c.T, false, c.Msg)
+			w.res.Notes = append(w.res.Notes, fmt.Sprintf("call %d/%d: %s:%s (recorded: %s:%s)", i+1, len(r.Calls), o.Class, o.Rule, c.Class, c.Rule))
+			if o.Class == "panic" {
+				w.violate("validator-panic", "ValidatePubsubMessage panicked on saved bytes: "+firstLine(o.Panic), "repro", i, repro{Kind: "calls", Calls: r.Calls[:i+1], Detail: o.Panic})
+				break
+			}
+			if o.Class == "hang" {
+				w.reportHang(p, "repro", i)
+				break
 			}
 		}
 	case "decoder":
@@ -942,8 +1163,8 @@ func main() {
 	go func() {
 		for {
 			time.Sleep(200 * time.Millisecond)
-			if s := lastCallStart.Load(); s != 0 && time.Since(time.Unix(0, s)) > 30*time.Second { // far beyond any stall of a loaded machine
-				w.violate("validator-hang", "a validation call did not return within 30 s (bulk mode watchdog)", "watchdog", 0, repro{Kind: "concurrent"})
+			if s := lastCallStart.Load(); s != 0 && time.Since(time.Unix(0, s)) > 60*time.Second { // far beyond any stall of a loaded machine
+				w.violate("validator-hang", "a direct call of ValidateSSVMessage did not return within 60 s (bulk mode watchdog)", "watchdog", 0, repro{Kind: "concurrent"})
 				w.finish(*out)
 				os.Exit(0)
 			}
@@ -971,6 +1192,9 @@ func main() {
 			fatal(err)
 		}
 		for _, b := range behs {
+			if w.abort.Load() { // a validator stopped returning (reported): the remaining behaviours are skipped
+				break
+			}
 			w.replay(b)
 		}
 		if len(behs) > 0 {
